@@ -116,6 +116,12 @@ Theorem c06_ids_unique_wrap : forall m d,
 Proof. exact start_unique_wrap. Qed.
 Print Assumptions c06_ids_unique_wrap.
 
+Theorem c06_ids_unique_wrap_every : forall m p,
+  snext m < 2 ^ 63 -> Z.of_nat (length (srefer m)) < maxid ->
+  exists b id, snd (step m (Every p)) = OId b id /\ 0 < id /\ ~ In id (srefer m).
+Proof. exact every_unique_wrap. Qed.
+Print Assumptions c06_ids_unique_wrap_every.
+
 Theorem c06_reachable_from_fresh : forall ops,
   short ops ->
   (forall cur tt, 0 <= cur -> reachable (fst (run (init_wheel cur tt) ops))) /\
@@ -234,6 +240,14 @@ Proof.
   split; repeat constructor; discriminate.
 Qed.
 
+(* the id counter at the top of a Go int with ids 1 and 3 pending: RunEvery gets id 2
+   (MaxInt+1 wraps to 1, which is in use); hypotheses of c06_ids_unique_wrap(_every) hold *)
+Example c06_example_wrap_every :
+  let m := mkSt (CHeap []) 0 [1; 3] (2 ^ 63 - 1) [] [] in
+  snd (step m (Every 5)) = OId false 2 /\ snd (step m (Start 5)) = OId false 2 /\
+  snext m < 2 ^ 63 /\ Z.of_nat (length (srefer m)) < maxid.
+Proof. vm_compute. repeat split; reflexivity. Qed.
+
 Example c06_example_reachable :
   reachable (fst (run (init_wheel 1000 0) [Start 1; HandleAdd])) /\
   mem 1 (srefer (fst (run (init_wheel 1000 0) [Start 1; HandleAdd]))) = true.
@@ -314,3 +328,69 @@ Theorem c06_src_remove : forall l i fuel, (i < length l)%nat -> Z.of_nat (length
                  if (i <? i')%nat then l2 else up (length l) l2 i).
 Proof. intros l i fuel Hi Hl Hf. split; [exact (src_remove l i fuel Hi Hl Hf) | exact (heap_remove_sift l i)]. Qed.
 Print Assumptions c06_src_remove.
+
+(* ------------------------------------------------------------------------------------------
+   The heap theorems restated on the regenerated code (C06/SourceHeap.v): what the
+   translated heap.Remove / heap.Pop / heap.Fix / heap.Push leave in the array, from ANY
+   array that is a heap with consistent index fields.  Together with c05_heap_array_inv
+   (every history keeps the array such a heap) these are the per-operation facts about
+   the code of container/heap + timerHeap that C05/C06's heap histories rest on. *)
+From FV Require Import C05.HeapOps C06.SourceHeap.
+
+Theorem c06_src_remove_exact : forall l i fuel,
+  harr_ok l -> (i < length l)%nat -> Z.of_nat (length l) < 2 ^ 61 -> (length l <= fuel)%nat ->
+  exists l1,
+    (let '(ids, idxs, dls, pers) := cols l in
+     go_heap_Remove_timerHeap_prefix fuel ids idxs dls pers (Z.of_nat (length l)) (Z.of_nat i) =
+     Lib.GoSem.Ok (let '(ids', idxs', dls', pers') := cols l1 in
+         Lib.GoSem.Reached (Z.of_nat i, Z.of_nat (length l - 1), ids', idxs', dls', pers'))) /\
+    let '(l', x) := repo_pop l1 in
+    harr_ok l' /\ hn x = hn (hget l i) /\ hidx x = (-1)%Z /\
+    Permutation.Permutation (map hn l) (hn x :: map hn l') /\ length l' = (length l - 1)%nat.
+Proof. exact src_remove_exact. Qed.
+Print Assumptions c06_src_remove_exact.
+
+Theorem c06_src_pop_exact : forall l fuel,
+  harr_ok l -> l <> [] -> Z.of_nat (length l) < 2 ^ 61 -> (length l <= fuel)%nat ->
+  exists l1,
+    (let '(ids, idxs, dls, pers) := cols l in
+     go_heap_Pop_timerHeap_prefix fuel ids idxs dls pers (Z.of_nat (length l)) =
+     Lib.GoSem.Ok (let '(ids', idxs', dls', pers') := cols l1 in
+         Lib.GoSem.Reached (Z.of_nat (length l - 1), ids', idxs', dls', pers'))) /\
+    let '(l', x) := repo_pop l1 in
+    harr_ok l' /\ hn x = hn (hget l 0) /\ hidx x = (-1)%Z /\
+    Permutation.Permutation (map hn l) (hn x :: map hn l') /\ length l' = (length l - 1)%nat.
+Proof. exact src_pop_exact. Qed.
+Print Assumptions c06_src_pop_exact.
+
+Theorem c06_src_fix_root_exact : forall l x fuel,
+  harr_ok l -> l <> [] -> hidx x = 0%Z -> Z.of_nat (length l) < 2 ^ 61 -> (length l <= fuel)%nat ->
+  (let '(ids, idxs, dls, pers) := cols (hupd l 0 x) in
+   go_heap_Fix_timerHeap fuel ids idxs dls pers (Z.of_nat (length l)) 0 =
+   Lib.GoSem.Ok (cols (heap_fix (hupd l 0 x) 0))) /\
+  harr_ok (heap_fix (hupd l 0 x) 0) /\
+  Permutation.Permutation (map hn (heap_fix (hupd l 0 x) 0)) (hn x :: tl (map hn l)) /\
+  length (heap_fix (hupd l 0 x) 0) = length l.
+Proof. exact src_fix_root_exact. Qed.
+Print Assumptions c06_src_fix_root_exact.
+
+Theorem c06_src_push_exact : forall l x fuel,
+  harr_ok l -> Z.of_nat (length l) + 1 < 2 ^ 61 -> (length l < fuel)%nat ->
+  (let '(ids, idxs, dls, pers) := cols (repo_push l x) in
+   go_heap_up_timerHeap fuel ids idxs dls pers (Z.of_nat (length l)) = Lib.GoSem.Ok (cols (heap_push l x))) /\
+  harr_ok (heap_push l x) /\ Permutation.Permutation (map hn (heap_push l x)) (x :: map hn l) /\
+  length (heap_push l x) = S (length l).
+Proof. exact src_push_exact. Qed.
+Print Assumptions c06_src_push_exact.
+
+(* non-vacuity: the array [(1,dl 3); (2,dl 9); (3,dl 5)] is a heap with consistent indices;
+   the regenerated heap.Remove(h, 0) leaves [(3,5); (2,9); (1,3)] with node 1 last *)
+Definition ex_heap3 : list hnode :=
+  [mkH (mkNode 1 3 0) 0; mkH (mkNode 2 9 0) 1; mkH (mkNode 3 5 0) 2].
+
+Example c06_example_src_remove :
+  (let '(ids, idxs, dls, pers) := cols ex_heap3 in
+   go_heap_Remove_timerHeap_prefix 3 ids idxs dls pers 3 0) =
+  Lib.GoSem.Ok (Lib.GoSem.Reached (0, 2, [3; 2; 1], [0; 1; 2], [5; 9; 3], [0; 0; 0])) /\
+  map (fun x => nid (hn x)) (fst (heap_remove ex_heap3 0)) = [3; 2].
+Proof. vm_compute. split; reflexivity. Qed.
